@@ -5,6 +5,7 @@ mod cases;
 mod drive;
 mod node;
 mod pred;
+mod uncles;
 mod world;
 
 use hx_common::*;
@@ -143,6 +144,18 @@ fn main() {
         // re-run the history of the first violation of the replay file
         let v: Value = serde_json::from_str(&fs::read_to_string(rp).expect("replay file")).expect("json");
         let id = v["violations"][0]["history_id"].as_str().unwrap_or("").to_string();
+        if id.starts_with("uncles ") {
+            // a sequence of the candidate-uncles stream
+            let idx = id.split("index=").nth(1).and_then(|s| s.trim().parse::<u64>().ok()).expect("sequence index in replay file");
+            let sd = id.split("seed=").nth(1).and_then(|s| s.split(' ').next()).and_then(|s| s.parse::<u64>().ok()).unwrap_or(seed);
+            println!("replay of candidate-uncles sequence {id}");
+            let viol = uncles::replay(sd, idx);
+            for v in &viol {
+                println!("  still failing: {} {}", v["what"], v["detail"]);
+            }
+            let _ = fs::remove_dir_all(&scratch);
+            std::process::exit(if viol.is_empty() { 0 } else { 1 });
+        }
         let idx = id.split("index=").nth(1).and_then(|s| s.trim().parse::<u64>().ok()).expect("history index in replay file");
         let sd = id.split("seed=").nth(1).and_then(|s| s.split(' ').next()).and_then(|s| s.parse::<u64>().ok()).unwrap_or(seed);
         let (_, viol, _, cfg) = run_history(sd, idx, mode_c12, steps);
@@ -265,12 +278,28 @@ fn main() {
             fs::write(out.join(format!("cases_{:02}.json", k)), serde_json::to_string(&json!({"size": ds, "selection": dl})).unwrap()).unwrap();
         }
         *stats.entry("coq_template_cases".into()).or_default() += std::cmp::min(c13_cases.len(), per * 16) as u64;
+        // ---- the candidate-uncles container (C13 names it as part of the assembler's state): operation sequences on the
+        // real CandidateUncles, cases_20.v … for Pool/Uncles.v
+        let n_seq = env_u64("HX_UNCLES", if thorough { hx_common::shard_share(4800) } else { 150 }) as usize;
+        if n_seq > 0 {
+            let u = uncles::run(seed, n_seq, &out);
+            evals += u.sequences;
+            for (k, n) in u.stats {
+                *stats.entry(k).or_default() += n;
+            }
+            for s in u.samples {
+                if samples.len() < 3 {
+                    samples.push(s);
+                }
+            }
+            viol.extend(u.viol);
+        }
     }
     let _ = fs::remove_dir_all(&scratch);
     let rule = if mode_c12 {
         "histories on ONE real node with the tx-pool service started and a block assembler configured (always-success lock): submissions through TxPoolController::submit_local_tx (chains and diamonds of pooled txs, cell deps, header deps, conflicts / RBF, dead inputs, fees around min_fee_rate, output data up to the block size), blocks mined from the node's own template, outside blocks built by a second node (extensions, competing branches of depth 1..6 that take over, siblings; they commit pooled txs, secret conflicting txs and re-commit txs of the abandoned branch; proposals expire at w_far), clock steps around the expiry edge, two-step submissions (pre_check / pool change / submit_entry), and straddling submissions (5 directed histories, one per proposal window, at the start of every run + a random step): a transaction never handed to the pool, its id committed on chain as a proposal by an outside block and the chain advanced to the END of its window (tip = proposal height + w_far - 1) / proposed only on a branch about to be abandoned / not proposed yet, is submitted through pre_check, <the node mines its own template | an outside block arrives | a heavier competing branch takes over> with the pool processing the change, submit_entry; the predicate is evaluated right after the insertion and the next template is mined. After every change of the main chain the harness waits until the pool's snapshot is the chain's tip and evaluates the C12 predicate on the pool dump and the node's snapshot. distinct = histories with >= 3 evaluations"
     } else {
-        "the histories of C12; every template obtained from TxPoolController::get_block_template (steady state, right after a block while the reorg notification may still be in flight, after reorgs, at epoch boundaries of 4/6/9-block epochs, with candidate uncles, with max_block_bytes / max_block_cycles / proposals limit lowered so that they bind, pool near max_tx_pool_size / max_ancestors_count) is checked for limits, size bookkeeping (TemplateSize vs the real serialized block), parents-first order, and mined on the SAME node: blocking_process_block must accept it and make it the tip whenever its parent is the tip; the raw TxSelector selection (package_txs) is checked against a dump taken under the same lock (ancestor-closed, parents-first, only proposed, within limits). distinct = histories with >= 3 evaluations"
+        "the histories of C12; every template obtained from TxPoolController::get_block_template (steady state, right after a block while the reorg notification may still be in flight, after reorgs, at epoch boundaries of 4/6/9-block epochs, with candidate uncles, with max_block_bytes / max_block_cycles / proposals limit lowered so that they bind, pool near max_tx_pool_size / max_ancestors_count) is checked for limits, size bookkeeping (TemplateSize vs the real serialized block), parents-first order, and mined on the SAME node: blocking_process_block must accept it and make it the tip whenever its parent is the tip; the raw TxSelector selection (package_txs) is checked against a dump taken under the same lock (ancestor-closed, parents-first, only proposed, within limits). Candidate uncles: random sequences of 60..200 insert / remove_by_number calls on the real CandidateUncles (numbers from a window of 1..20 heights so that heights exceed MAX_PER_HEIGHT and the container reaches MAX_CANDIDATE_UNCLES; duplicates, removes of present and absent uncles, inserts below / at / above the lowest number of a full container), len / contains / values observed after every call and judged by the container's contract; one evaluation per sequence. distinct = histories with >= 3 evaluations"
     };
     let summary = json!({
         "property": prop, "seed": seed,
